@@ -329,137 +329,183 @@ def _floor_half(e, n):
 
 
 def multiscale_rule(ctx):
+    """MS-SPLIT / MS-STATE by partial evaluation (nfstatic/peval.py): the object is *built* by
+    evaluating __init__ and one add_transform call per stage on concrete integer shapes (each stage
+    receives the hidden shape the previous call returned), then forward and inverse are evaluated
+    with uninterpreted tensors and compared, term by term, with the composition the property
+    prescribes.  Whatever bookkeeping attributes the class keeps, and however the loops are
+    spelled, only the resulting terms count."""
+    from ..peval import PEval, Obj, Stage, Sym, Undecided as PUndecided, Raises as PRaises, mk_sum, show
+
     p = ctx.p
     cls = p.find_class("MultiscaleCompositeTransform", "nflows.transforms.base")
     res = RuleResult("MS-SPLIT", "multiscale bookkeeping: constructor sizes = chunk sizes; forward emits the first chunk and carries the second; inverse concatenates [emitted, carried] on the same dim; flat pieces are sliced in stage order and consumed in reverse; the last stage is unsplit")
+    st = RuleResult("MS-STATE", "the recorded shapes are written by the constructor and add_transform only")
+    init = cls.methods.get("__init__")
     add = cls.methods.get("add_transform")
     fwd = cls.methods.get("forward")
     inv = cls.methods.get("inverse")
-    for m, nm in ((add, "add_transform"), (fwd, "forward"), (inv, "inverse")):
+    for m, nm in ((init, "__init__"), (add, "add_transform"), (fwd, "forward"), (inv, "inverse")):
         if m is None:
             raise AnalysisIncomplete("MultiscaleCompositeTransform.%s missing" % nm)
-    # (a) size arithmetic in add_transform
-    stores = {}
-    for n in ast.walk(add.node):
-        if isinstance(n, ast.Assign) and isinstance(n.targets[0], ast.Subscript) and isinstance(n.targets[0].value, ast.Name):
-            stores[n.targets[0].value.id] = (n, n.targets[0].slice, n.value)
-    for var, pred, what in (("output_shape", _ceil_half, "ceil(n/2)"), ("hidden_shape", _floor_half, "floor(n/2)")):
-        if var not in stores:
-            res.undecide("add_transform %s" % var, "no element store found")
-            continue
-        node, idx, val = stores[var]
-        itxt = norm_text(idx)
-        if itxt != "self._split_dim - 1":
-            res.fail(Finding("MS-SPLIT", add.module, add.qualname, node, "the recorded shape excludes the batch dimension, so the split size must be written at index split_dim - 1 (found `%s`)" % itxt))
-            continue
-        hv = pred(val, "%s[%s]" % (var, itxt))
-        if hv:
-            res.ok("add_transform: %s[split_dim-1] = %s" % (var, what))
-        elif hv is None:
-            res.undecide("add_transform %s" % var, "`%s` is not a closed integer formula of the split size" % norm_text(val)[:60])
-        else:
-            res.fail(Finding("MS-SPLIT", add.module, add.qualname, node, "%s along the split dimension must be %s -- torch.chunk(chunks=2) gives the first chunk ceil(n/2) and the second floor(n/2); found `%s`" % (var, what, norm_text(val))))
-    # (d) last stage unsplit in the constructor bookkeeping
-    last_ok = False
-    for n in ast.walk(add.node):
-        if isinstance(n, ast.If) and "len(self._transforms)" in norm_text(n.test) and "self._num_transforms" in norm_text(n.test):
-            branch = n.orelse if isinstance(n.test, ast.Compare) and isinstance(n.test.ops[0], ast.NotEq) else n.body
-            txt = " ".join(norm_text(s) for s in branch)
-            if "output_shape = transform_output_shape" in txt and "hidden_shape = None" in txt:
-                last_ok = True
-    if last_ok:
-        res.ok("add_transform: the last stage records its full output shape and no hidden shape")
-    else:
-        res.fail(Finding("MS-SPLIT", add.module, add.qualname, add.node, "the last stage must record its full output shape (no split)", construct="last stage bookkeeping"))
-    # MS-STATE
-    appends = []
-    for fi in p.all_functions():
-        for n in ast.walk(fi.node):
-            if isinstance(n, ast.Call) and isinstance(n.func, ast.Attribute) and n.func.attr in ("append", "extend", "insert", "pop", "clear") and attr_chain(n.func.value) == "self._output_shapes":
-                appends.append((fi, n))
-            if isinstance(n, ast.Assign) and any(attr_chain(t) == "self._output_shapes" for t in n.targets) and fi.name != "__init__":
-                appends.append((fi, n))
-    st = RuleResult("MS-STATE", "_output_shapes is appended exactly once per add_transform and nowhere else")
-    if len(appends) == 1 and appends[0][0] is add and appends[0][1].func.attr == "append" and getattr(appends[0][1], "_parent", None) in [s for s in add.node.body if isinstance(s, ast.Expr)]:
-        st.ok("one unconditional append in add_transform")
-    else:
-        for fi, n in appends:
-            if fi is not add or len(appends) != 1:
-                st.fail(Finding("MS-STATE", fi.module, fi.qualname, n, "_output_shapes is modified outside the single unconditional append of add_transform"))
-        if not appends:
-            st.fail(Finding("MS-STATE", add.module, add.qualname, add.node, "add_transform never records the output shape", construct="append of _output_shapes"))
-        elif not st.findings:
-            st.fail(Finding("MS-STATE", add.module, add.qualname, appends[0][1], "the append to _output_shapes is conditional"))
-    # (b)-(e) forward and inverse against the specification, by partial evaluation for 1, 2, 3
-    # and 4 stages: containers / loops / generators / slices are evaluated concretely, tensors
-    # stay uninterpreted terms (nfstatic/peval.py)
-    from ..peval import PEval, Obj, Stage, Shape, Sym, Undecided as PUndecided, mk_sum, show
+    methods = {}
+    for c in reversed(cls.repo_mro()):
+        for nm, fi in c.methods.items():
+            if c.name == "MultiscaleCompositeTransform" or nm.startswith("_") and not nm.startswith("__"):
+                methods[nm] = fi.node
 
-    def spec_forward(k, x, ctx, d):
+    def prod(shape):
+        r = 1
+        for v in shape:
+            r *= v
+        return r
+
+    def spec_shapes(k, d, shape0):
+        """(emitted shape, carried shape) per stage: torch.chunk(chunks=2) gives ceil / floor"""
+        outs, hid = [], tuple(shape0)
+        stage_in = []
+        for i in range(1, k + 1):
+            stage_in.append(hid)
+            if i < k:
+                o = list(hid)
+                o[d - 1] = (hid[d - 1] + 1) // 2
+                h = list(hid)
+                h[d - 1] = hid[d - 1] // 2
+                outs.append(tuple(o))
+                hid = tuple(h)
+            else:
+                outs.append(tuple(hid))
+        return outs, stage_in
+
+    def spec_forward(k, x, cx, d):
         h = x
         pieces, lds = [], []
         for i in range(1, k + 1):
-            t = ("out", "T%d" % i, "fwd", h, ctx)
-            lds.append(("ld", "T%d" % i, "fwd", h, ctx))
+            t = ("out", "T%d" % i, "fwd", h, cx)
+            lds.append(("ld", "T%d" % i, "fwd", h, cx))
             if i < k:
                 pieces.append(("flat", ("ch", t, 0, d)))
                 h = ("ch", t, 1, d)
             else:
                 pieces.append(("flat", t))
-        return ("cat", tuple(pieces), "last"), mk_sum(*lds)
+        return (pieces[0] if len(pieces) == 1 else ("cat", tuple(pieces), "last")), mk_sum(*lds)
 
-    def spec_inverse(k, y, ctx, d):
+    def spec_inverse(k, y, cx, d, outs, stage_in=None, flat_variant=()):
+        """`flat_variant`: stages at which [piece, carried] are concatenated flat and viewed with the
+        stage's input shape afterwards -- the same tensor as concatenating the shaped pieces along
+        the split dimension exactly when split_dim == 1 (row-major layout)"""
         cum = [0]
-        for i in range(1, k + 1):
-            cum.append(mk_sum(cum[-1], ("numel", "S%d" % i)))
-        piece = {i: ("view", ("slice", y, cum[i - 1], cum[i]), "S%d" % i) for i in range(1, k + 1)}
+        for sh in outs:
+            cum.append(cum[-1] + prod(sh))
+        sl = {i: ("slice", y, cum[i - 1], cum[i]) for i in range(1, k + 1)}
+        piece = {i: ("view", sl[i], tuple(outs[i - 1])) for i in range(1, k + 1)}
         lds = []
         arg = piece[k]
-        h = ("out", "T%d" % k, "inv", arg, ctx)
-        lds.append(("ld", "T%d" % k, "inv", arg, ctx))
+        h = ("out", "T%d" % k, "inv", arg, cx)
+        lds.append(("ld", "T%d" % k, "inv", arg, cx))
         for i in range(k - 1, 0, -1):
-            arg = ("cat", (piece[i], h), d)
-            lds.append(("ld", "T%d" % i, "inv", arg, ctx))
-            h = ("out", "T%d" % i, "inv", arg, ctx)
+            if i in flat_variant and d == 1 and stage_in is not None:
+                arg = ("view", ("cat", (sl[i], ("flat", h)), "last"), tuple(stage_in[i - 1]))
+            else:
+                arg = ("cat", (piece[i], h), d)
+            lds.append(("ld", "T%d" % i, "inv", arg, cx))
+            h = ("out", "T%d" % i, "inv", arg, cx)
         return h, mk_sum(*lds)
 
     def first_difference(got, want, where="result"):
         if got == want:
             return None
         if isinstance(got, tuple) and isinstance(want, tuple) and got and want and got[0] == want[0] and len(got) == len(want):
-            for i, (g, w) in enumerate(zip(got[1:], want[1:])):
+            for g, w in zip(got[1:], want[1:]):
                 dd = first_difference(g, w, "%s > %s" % (where, got[0]))
                 if dd:
                     return dd
         return "%s: found `%s`, the composition requires `%s`" % (where, show(got)[:110], show(want)[:110])
 
-    for fi, spec, nm in ((fwd, spec_forward, "forward"), (inv, spec_inverse, "inverse")):
-        decided = 0
-        for k in (1, 2, 3, 4):
-            obj = Obj({
-                "_transforms": [Stage("T%d" % i) for i in range(1, k + 1)],
-                "_output_shapes": [Shape("S%d" % i) for i in range(1, k + 1)],
-                "_split_dim": Sym(("split_dim",)),
-                "_num_transforms": k,
-            })
-            pe = PEval(obj)
+    CONFIGS = [(1, 1, (6, 4)), (2, 1, (6, 4)), (3, 1, (9, 4)), (4, 1, (19,)), (2, 2, (4, 7)), (3, 2, (3, 9)), (2, 3, (2, 3, 5))]
+    n_dec = 0
+    for k, d, shape0 in CONFIGS:
+        tag = "%d stage(s), split_dim=%d, input shape %s" % (k, d, shape0)
+        outs_want, stage_in = spec_shapes(k, d, shape0)
+        obj = Obj({}, methods)
+        pe = PEval(obj)
+        try:
+            pe.call_method(init.node, [k], {"split_dim": d})
+            hid = tuple(shape0)
+            returned = []
+            for i in range(1, k + 1):
+                r = pe.call_method(add.node, [Stage("T%d" % i), tuple(hid)])
+                returned.append(r)
+                if i < k:
+                    if r is None:
+                        raise PUndecided("add_transform returned no hidden shape for stage %d of %d" % (i, k))
+                    hid = tuple(r)
+        except PUndecided as ex:
+            res.undecide("MultiscaleCompositeTransform construction with %s" % tag, str(ex))
+            continue
+        except PRaises as ex:
+            res.fail(Finding("MS-SPLIT", add.module, add.qualname, ex.node if ex.node is not None else add.node, "building the transform with %s (a valid configuration: every stage has at least 2 entries along the split dimension) fails: %s" % (tag, ex.what), construct="construction, %s" % tag))
+            continue
+        # constructor bookkeeping: the hidden shapes handed on, and nothing after the last stage
+        want_hidden = [tuple(s) for s in stage_in[1:]] + [None]
+        got_hidden = [tuple(r) if r is not None else None for r in returned]
+        if got_hidden != want_hidden:
+            res.fail(Finding("MS-SPLIT", add.module, add.qualname, add.node, "add_transform hands on the hidden shapes %s for %s; torch.chunk(chunks=2) leaves floor(n/2) along the split dimension, i.e. %s (and nothing after the last stage)" % (got_hidden, tag, want_hidden), construct="hidden shapes, %s" % tag))
+            continue
+        for fi, nm in ((fwd, "forward"), (inv, "inverse")):
             try:
                 r = pe.call_method(fi.node, [Sym(("x",)), Sym(("ctx",))])
                 if not (isinstance(r, tuple) and len(r) == 2 and all(isinstance(v, Sym) for v in r)):
                     raise PUndecided("%s does not return a pair of tensors" % nm)
             except PUndecided as ex:
-                res.undecide("MultiscaleCompositeTransform.%s with %d stage(s)" % (nm, k), str(ex))
+                res.undecide("MultiscaleCompositeTransform.%s with %s" % (nm, tag), str(ex))
+                continue
+            except PRaises as ex:
+                res.fail(Finding("MS-SPLIT", fi.module, fi.qualname, ex.node if ex.node is not None else fi.node, "%s raises for %s: %s" % (nm, tag, ex.what), construct="%s with %s" % (nm, tag)))
                 continue
             except RecursionError:
-                res.undecide("MultiscaleCompositeTransform.%s with %d stage(s)" % (nm, k), "evaluation too deep")
+                res.undecide("MultiscaleCompositeTransform.%s with %s" % (nm, tag), "evaluation too deep")
                 continue
-            want_out, want_ld = spec(k, ("x",), ("ctx",), ("split_dim",))
+            if nm == "forward":
+                want_out, want_ld = spec_forward(k, ("x",), ("ctx",), d)
+            else:
+                want_out, want_ld = spec_inverse(k, ("x",), ("ctx",), d, outs_want)
+                if d == 1 and (r[0].term, r[1].term) != (want_out, want_ld):
+                    import itertools
+
+                    for m in range(1, k):
+                        for fv in itertools.combinations(range(1, k), m):
+                            alt = spec_inverse(k, ("x",), ("ctx",), d, outs_want, stage_in, fv)
+                            if (r[0].term, r[1].term) == alt:
+                                want_out, want_ld = alt
             dd = first_difference(r[0].term, want_out, "outputs") or first_difference(r[1].term, want_ld, "log-det")
             if dd is None:
-                decided += 1
-                res.ok("%s with %d stage(s) = %s" % (nm, k, show(want_out)[:100]))
+                n_dec += 1
+                res.ok("%s with %s = %s" % (nm, tag, show(want_out)[:90]))
             else:
-                res.fail(Finding("MS-SPLIT", fi.module, fi.qualname, fi.node, "%s is not the composition of its stages (evaluated with %d stage(s)): %s" % (nm, k, dd), construct="%s with %d stage(s)" % (nm, k)))
+                res.fail(Finding("MS-SPLIT", fi.module, fi.qualname, fi.node, "%s is not the composition of its stages (evaluated with %s): %s" % (nm, tag, dd), construct="%s with %s" % (nm, tag)))
+    if n_dec == 0 and not res.findings and not res.undecided:
+        raise AnalysisIncomplete("MS-SPLIT: nothing decided")
+    # MS-STATE: who may write the recorded shapes
+    writers = []
+    for fi in p.all_functions():
+        if fi.cls is not cls or fi.name in ("__init__", "add_transform"):
+            continue
+        for n in ast.walk(fi.node):
+            if isinstance(n, ast.Call) and isinstance(n.func, ast.Attribute) and n.func.attr in ("append", "extend", "insert", "pop", "clear", "remove", "reverse", "sort") and (attr_chain(n.func.value) or "").startswith("self._") and "shape" in (attr_chain(n.func.value) or ""):
+                writers.append((fi, n))
+            if isinstance(n, (ast.Assign, ast.AugAssign)):
+                for t in (n.targets if isinstance(n, ast.Assign) else [n.target]):
+                    root = t
+                    while isinstance(root, ast.Subscript):
+                        root = root.value
+                    if (attr_chain(root) or "").startswith("self._") and "shape" in (attr_chain(root) or ""):
+                        writers.append((fi, n))
+    if writers:
+        for fi, n in writers:
+            st.fail(Finding("MS-STATE", fi.module, fi.qualname, n, "the recorded shapes are modified outside the constructor and add_transform"))
+    else:
+        st.ok("recorded shapes are written by __init__ / add_transform only")
     return [res, st]
 
 
